@@ -333,7 +333,10 @@ def run(ctx) -> None:
             per = max(D, rng.choice([2 * D, 3 * D + 1, (n - 1) * D, n * D + 7]))  # also windows as long as the whole record
             for kind in ("std", "range"):
                 at = {"suspect_threshold": 1.1, "fail_threshold": 0.3, "check_type": kind, "test_period": per}
-                if rng.random() < 0.6:
+                r_ = rng.random()
+                if r_ < 0.45:
                     at["min_obs"] = rng.choice([1, 2])
+                elif r_ < 0.8 and n >= 2:
+                    at["min_period"] = rng.choice([0, D, 2 * D])  # the other way to state the minimum: same window (t - P, t]
                 local(f"attenuated-{kind}-window", "qartod.attenuated_signal_test", {"inp": X(x), "tinp": TT(tr), **at}, "inp", x,
                       lambda p_: {i for i in range(n) if tr[i] - per < tr[p_] <= tr[i]}, at)
